@@ -26,6 +26,13 @@ for _pid, _t in {
 }.items():
     CLAIMED[_pid] = (SEARCH_NOTE, "Exhaustive over all multigraphs with <=3 nodes / <=3 edges (quick; thorough adds 2 edge values, all filter subsets, 4 nodes) x roots x targets x filters: " + _t + ". Seeded random graphs (12 / 30 nodes) beyond.", "§4 " + _pid)
 
+CLAIMED["C11"] = ("TLA+ Scc (both Kosaraju passes over EVERY container iteration order pi, on DfsOrder's functional orderings) model-checked against IsSccPartition; expected partition per graph emitted by TLC and compared with scc() on several fresh containers / insertion orders; disagreements and random 16/30-node graphs judged by TLC",
+  "All directed multigraphs with 3 nodes/<=4 edges and 4 nodes/<=3 edges (thorough: <=5 / <=4) x all container orders in the model; 4-8 fresh hash maps per graph on digraph and sync_digraph.", "§4 C11")
+CLAIMED["C12"] = ("TLA+ Serde: RoundTripAllOrders (every small graph x every container order) model-checked; every emitted graph is round-tripped through the real serde_json and serde_cbor code of all four containers; graph/ser/de events judged by TLC (document is Serialize(graph, pi) for its own pi; result satisfies RoundTripOK)",
+  "All multigraphs with 3 nodes/<=3 edges/2 values (thorough <=4) x 2 formats x several fresh containers on all four flavours, seeded graphs up to 40 nodes.", "§4 C12")
+CLAIMED["C13"] = ("TLA+ Serde: every small abstract document (repeated keys, undeclared endpoints, empty lists) enumerated by TLC with the outcome of Deser, checked against UntrustedOK; rendered as JSON and CBOR and deserialised by the real code under a watchdog; disagreements and seeded structural/byte-level mutations judged by TLC",
+  "All documents with <=2 node entries / <=2 edge entries over 3 keys (thorough <=3/<=3) x 2 formats x 4 container types; 2 000 (thorough 50 000) mutated documents per flavour. Panic or hang is a rejected outcome.", "§4 C13")
+
 NOT_YET = {}
 props = [json.loads(l) for l in open(os.path.join(V, "properties.jsonl"))]
 checks = []
